@@ -54,6 +54,14 @@ def gen(seed, tier):
             layers[r.randrange(len(layers))] = {"kind": "precision", "opt": opt, "eps": 0.1 * max(1.0, minr * minr)}
         st["layers"] = layers
     # zero-duration / jump faults early enough to fire
+    for st in pl["stacks"]:
+        for l in st["layers"]:
+            if l["kind"] == "cutoff":
+                # only the lowest cutoff of a stack: the layers below it were evaluated a few times before the budget
+                # was put around them (every cutoff layer itself is then still brand new when the tree is built)
+                if r.random() < 0.25:
+                    l["pre_evals"] = r.randint(1, 4)
+                break
     if "jumps" in pl["clock"]:
         pl["clock"]["jumps"] = {str(P.loguniform_int(r, 1, 300)): r.choice([0.0, 0.0, 5.0, 86400.0, 3.2e7])
                                 for _ in range(r.randint(1, 5))}
@@ -71,6 +79,14 @@ class LayerModel:
         self.eta = math.inf
         self.hits = 0
         self.durations = 0
+        # a layer may have been used before the tree was built (its own history is legitimate state) - except a
+        # cutoff layer, which the plans always create last: its budget starts with the first call it receives
+        if self.kind != "EvalCutoffProblem":
+            self.forwarded = int(getattr(layer, "n_evaluations", 0) or 0)
+            if self.kind == "PrecisionCutoffProblem":
+                self.hit = bool(layer.hit_precision)
+                self.eta = layer.ETA
+                self.hits = 1 if self.hit else 0
 
 
 class C16Monitor(Monitor):
